@@ -3,6 +3,9 @@
 import json, os, re, sys, glob
 
 DESC = {
+ "r6-C01a": ("C01", "ConnAck.properties writes the Maximum QoS property only for values below 2 (framed as spec compliance)", "a CONNACK built with SetMaxQoS(2): the decoded packet reports 0"),
+ "r6-C01b": ("C01", "getAny rejects a repeated property identifier (bit set of identifiers seen), exempting only user properties", "a PUBLISH with two or more subscription identifiers"),
+ "r6-C01c": ("C01", "Connect.UnmarshalBinary reads the password only inside the user-name branch", "a CONNECT with a password but no user name: the decoded packet has no password"),
  "r5-C06": ("C06", "bodies of at most 64 bytes are read with io.ReadAtLeast into a 64-byte scratch array: bytes of the following frames are consumed", "a short frame followed by more bytes in the same Read"),
  "r5-C07": ("C07", "vbint.ReadFrom reads the remaining-length bytes with a single r.Read into a [1]byte and ignores the count", "a zero-length read before or inside the remaining length, or the byte delivered together with io.EOF"),
  "r5-C08": ("C08", "io.ErrUnexpectedEOF from the body read is no longer fatal: the truncated body is handed to UnmarshalBinary", "a stream that ends inside the body of a frame whose prefix still parses"),
